@@ -10,6 +10,7 @@ import (
 	"fmt"
 	"os"
 	"path/filepath"
+	"regexp"
 	"sort"
 	"strings"
 	"time"
@@ -187,7 +188,7 @@ func runOSOverlay(c *Ctx) {
 	}
 	defer os.RemoveAll(dir)
 	os.MkdirAll(filepath.Join(dir, "d"), 0o755)
-	os.WriteFile(filepath.Join(dir, "a"), []byte("x"), 0o644)       // a regular file where the base has a directory
+	os.WriteFile(filepath.Join(dir, "a"), []byte("x"), 0o644)        // a regular file where the base has a directory
 	os.WriteFile(filepath.Join(dir, "d", "o"), []byte("ovl"), 0o644) // overlay-only file
 	os.WriteFile(filepath.Join(dir, "d", "both"), []byte("OVERLAY"), 0o644)
 	base := afero.NewMemMapFs()
@@ -246,7 +247,7 @@ func runOSOverlay(c *Ctx) {
 		dirB, _ := os.MkdirTemp("", "afosovlb-")
 		dirL, _ := os.MkdirTemp("", "afosovll-")
 		os.WriteFile(filepath.Join(dirB, "a"), []byte("base-a"), 0o644) // a FILE in the base ...
-		os.MkdirAll(filepath.Join(dirL, "a"), 0o755)                     // ... a DIRECTORY in the overlay: the overlay's entry wins
+		os.MkdirAll(filepath.Join(dirL, "a"), 0o755)                    // ... a DIRECTORY in the overlay: the overlay's entry wins
 		os.MkdirAll(filepath.Join(dirB, "x", "y", "z"), 0o755)
 		os.WriteFile(filepath.Join(dirB, "x", "y", "f"), []byte("deep"), 0o644) // base only, no ancestor in the overlay yet
 		os.WriteFile(filepath.Join(dirB, "x", "y", "z", "g"), []byte("deeper"), 0o644)
@@ -295,6 +296,34 @@ func runOSOverlay(c *Ctx) {
 		} else if fi, err := u.Stat("/x/y/h"); err != nil || !fi.ModTime().Equal(tm) {
 			bad("view-differs:os-overlay:mtime", "Stat(/x/y/h) after Chtimes: %v, %v", fi, err)
 		}
+		// a DIRECTORY that only the base has: whatever a modifying call on it answers (the copy-up reads
+		// the directory's handle, which the OS refuses), it stays the directory it was in the view
+		os.MkdirAll(filepath.Join(dirB, "q", "r"), 0o755)
+		os.WriteFile(filepath.Join(dirB, "q", "k"), []byte("kept"), 0o644)
+		for ci, call := range []func() error{
+			func() error { return u.Chtimes("/q", tm, tm) },
+			func() error { return u.Chmod("/q/r", 0o700) },
+			func() error { return u.Chown("/q", os.Getuid(), os.Getgid()) },
+			func() error {
+				f, err := u.OpenFile("/q/r", os.O_WRONLY, 0)
+				if err == nil {
+					f.Close()
+				}
+				return err
+			},
+		} {
+			m++
+			c.Count("osoverlay.modify-base-dir")
+			err := call()
+			for _, d := range []string{"/q", "/q/r"} {
+				if fi, serr := u.Stat(d); serr != nil || !fi.IsDir() {
+					bad("view-differs:os-overlay:base-dir-lost", "after modifying call %d (result %v) on a directory only the base has, Stat(%s) = %v, %v: no longer a directory in the view", ci, err, d, fi, serr)
+				}
+			}
+			if b, rerr := afero.ReadFile(u, "/q/k"); rerr != nil || string(b) != "kept" {
+				bad("view-differs:os-overlay:base-dir-lost", "after modifying call %d (result %v) ReadFile(/q/k) = %q, %v", ci, err, b, rerr)
+			}
+		}
 		for name, want := range map[string]string{"a": "base-a", "x/y/f": "deep", "x/y/z/g": "deeper", "x/y/h": "mode"} {
 			if b, err := os.ReadFile(filepath.Join(dirB, name)); err != nil || string(b) != want {
 				bad("base-changed:os-overlay", "the base's %s now holds %q, %v; want %q", name, b, err, want)
@@ -302,6 +331,32 @@ func runOSOverlay(c *Ctx) {
 		}
 		os.RemoveAll(dirB)
 		os.RemoveAll(dirL)
+	}
+	// an overlay that HIDES an entry it physically holds (RegexpFs: its Stat answers a bare ENOENT):
+	// "the overlay has no entry", so every call shows the base's file
+	{
+		store, base := afero.NewMemMapFs(), afero.NewMemMapFs()
+		afero.WriteFile(store, "/h.dat", []byte("physically there, hidden"), 0o644)
+		afero.WriteFile(store, "/v.txt", []byte("overlay"), 0o644)
+		afero.WriteFile(base, "/h.dat", []byte("base"), 0o644)
+		afero.WriteFile(base, "/v.txt", []byte("base version"), 0o644)
+		u := afero.NewCopyOnWriteFs(base, afero.NewRegexpFs(store, regexp.MustCompile(`\.txt$`)))
+		for name, want := range map[string]string{"/h.dat": "base", "/v.txt": "overlay"} {
+			m++
+			c.Count("osoverlay.hiding-overlay")
+			b, rerr := afero.ReadFile(u, name)
+			fi, serr := u.Stat(name)
+			var lerr error
+			if l, ok := u.(afero.Lstater); ok {
+				_, _, lerr = l.LstatIfPossible(name)
+			}
+			if rerr != nil || string(b) != want || serr != nil || fi.Size() != int64(len(want)) || lerr != nil {
+				c.Oracle("FAIL osovl3-%s view-differs:hiding-overlay union of a MemMapFs base and a RegexpFs overlay: %s ReadFile = %q, %v; Stat = %v, %v; Lstat err %v; the view holds %q", name, name, b, rerr, fi, serr, lerr, want)
+			}
+		}
+		if err := u.Mkdir("/h.dat", 0o755); err == nil {
+			c.Oracle("FAIL osovl3-mkdir view-differs:hiding-overlay:Mkdir Mkdir(/h.dat) succeeds although the view holds the base's file there")
+		}
 	}
 	c.Extra["os_overlay"] = fmt.Sprintf("%d paths of a union MemMapFs base + BasePathFs(OsFs) overlay incl. a base file below an overlay regular file; %d modifying calls with base and overlay both on the OS (a name below an overlay directory that is a file in the base, copy-up of nested base-only files) (oracle only)", n, m)
 }
